@@ -20,12 +20,13 @@ namespace
 
 // calibrated constants, in units of eps resp. eps*max|A|.  Worst ratios observed on the pristine tree
 // (thorough tier): SVD 3x3 orthonormality 13.7 / recompose 20.8, SVD 4x4 23.4 / 59.2 (antisymmetric
-// matrices, repeated singular values); eigen 3x3 7.7 / 9.0, 4x4 17.3 / 18.2; eigenvectors: unit
+// matrices; 4x4 double matrices with coinciding singular values additionally show a tail up to 956 when the
+// 20-sweep cap is hit - reported, see sub_svd44_witness - and 51 / orthonormality 39.9 with a larger cap); eigen 3x3 7.7 / 9.0, 4x4 17.3 / 18.2; eigenvectors: unit
 // length 12.8, residual 6.0, extremeness 1.1.  Bounds are >= 8x those.  (Upstream's own tests use
 // 100 eps for orthonormality and 10 (3x3) / 100 (4x4) eps*max|A| for the reconstruction.)
 template <int N> struct Cn;
 template <> struct Cn<3> { static constexpr long double svd_orth = 128, svd_rec = 192, eig = 100; };
-template <> struct Cn<4> { static constexpr long double svd_orth = 256, svd_rec = 512, eig = 192; };
+template <> struct Cn<4> { static constexpr long double svd_orth = 384, svd_rec = 512, eig = 192; };
 const LD C_VEC     = 128; // unit length (eps), eigen-residual (eps*max|A|)
 const LD C_EXTREME = 16;  // | |lambda| - extreme |eigenvalue| | / (eps*max|A|)
 
@@ -135,17 +136,12 @@ gen_general (Rng& r, uint64_t idx, typename MT<T, N>::M& out)
 
 template <class T, int N>
 void
-sub_svd (Ctx& c, uint64_t idx)
+judge_svd (Ctx& c, uint64_t idx, typename MT<T, N>::M A, const char* cls, bool flag, bool defaults)
 {
     typedef typename MT<T, N>::M M;
     typedef typename MT<T, N>::V V;
     const std::string fn  = std::string ("jacobiSVD") + (N == 3 ? "33." : "44.") + tname<T>::s ();
     const LD          eps = epsT<T> ();
-    Rng               r   = c.rng (idx);
-    M                 A;
-    const char*       cls = gen_general<T, N> (r, idx, A);
-    const bool        flag = (idx / NGEN) & 1;
-    const bool        defaults = (idx / (2 * NGEN)) & 1; // default arguments (tol = eps, no flag) when the flag is off
     c.eval ();
     c.cls (cls);
     c.cls (flag ? "forcePositiveDeterminant" : "plain");
@@ -180,7 +176,21 @@ sub_svd (Ctx& c, uint64_t idx)
     {
         LD q = rec / (eps * amax);
         c.worst ("recompose/(eps*max|A|)", (double) q, idx, [&] { return Obj ().kv ("class", cls).kv ("flag", flag).str (); });
-        if (!(q <= Cn<N>::svd_rec)) c.fail (fn + ":recompose", idx, describe ("max|U diag(S) V^T - A| / (eps max|A|)", q));
+        if (!(q <= Cn<N>::svd_rec))
+        {
+            // Where does the residual sit?  D = U^T A V: if its diagonal agrees with S and only its
+            // off-diagonal entries are too large, the Jacobi sweeps stopped before convergence.
+            LD dg = 0, off = 0;
+            for (int i = 0; i < N; ++i)
+                for (int j = 0; j < N; ++j)
+                {
+                    LD dij = 0;
+                    for (int k = 0; k < N; ++k) for (int l = 0; l < N; ++l) dij += u[k][i] * a[k][l] * v[l][j];
+                    if (i == j) dg = std::max (dg, fabsl (dij - s[i])); else off = std::max (off, fabsl (dij));
+                }
+            bool unconverged = dg / (eps * amax) <= Cn<N>::svd_rec && ou <= Cn<N>::svd_orth && ov <= Cn<N>::svd_orth;
+            c.fail (fn + (unconverged ? ":recompose_offdiagonal_unconverged" : ":recompose"), idx, describe (unconverged ? "max|U diag(S) V^T - A| / (eps max|A|); U^T A V has diagonal S but off-diagonal entries left" : "max|U diag(S) V^T - A| / (eps max|A|)", q));
+        }
     }
     // ordering and signs
     int lastpos = flag ? N - 1 : N; // entries [0,lastpos) must be >= 0
@@ -197,6 +207,39 @@ sub_svd (Ctx& c, uint64_t idx)
     }
     if (c.verbose) std::fprintf (stderr, "[replay] class=%s flag=%d orthU=%Lg orthV=%Lg rec=%Lg (eps units)\n", cls, (int) flag, ou, ov, amax > 0 ? rec / (eps * amax) : rec);
     if (idx % 997 < (uint64_t) NGEN) c.sample (cls, [&] { return Obj ().raw ("A", mat_json (A0)).arr ("S", &S[0], (size_t) N).kv ("flag", flag).str (); });
+}
+
+template <class T, int N>
+void
+sub_svd (Ctx& c, uint64_t idx)
+{
+    Rng                      r = c.rng (idx);
+    typename MT<T, N>::M     A;
+    const char*              cls = gen_general<T, N> (r, idx, A);
+    const bool               flag = (idx / NGEN) & 1;
+    const bool               defaults = (idx / (2 * NGEN)) & 1; // default arguments (tol = eps, no flag) when the flag is off
+    judge_svd<T, N> (c, idx, A, cls, flag, defaults);
+}
+
+// Literal 4x4 double matrices with two pairs of coinciding singular values (found by the random
+// search of class repeated_singular_values, 3 of ~20 hits in 6e7 samples) on which the 20-sweep cap
+// of the 4x4 two-sided Jacobi iteration is reached before the off-diagonal entries have converged:
+// residual 626..956 eps*max|A| on the unchanged tree, <= 51 eps*max|A| once the cap is raised to 30.
+// Kept as a deterministic sub-check so that this behaviour is reported on every run, not by chance.
+const double sweep_limit_witness[3][16] = {
+    {-0x1.056642ed0608ep-3, -0x1.22e0644077ed2p-2, 0x1.f67822725d6e3p-3, -0x1.0ea9070c8ce4bp-1, -0x1.eb888e209d919p-3, -0x1.3373594620ff7p-1, 0x1.66421f8146ffdp-3, 0x1.85ccf06cfd813p-2,
+     -0x1.0dcda2c587049p-2, 0x1.8df78ecf499a4p-2, 0x1.663b3fdb02ab3p-2, 0x1.4fed0aa4c89bp-2, -0x1.867a7aff7c15dp-2, 0x1.2891281c6f3d5p-4, -0x1.6c2f37439920dp-2, -0x1.76e6f49b15b65p-3},
+    {-0x1.72d7af1c9b80dp-2, 0x1.d874082702cf6p-2, 0x1.9a06f1aafc682p-2, 0x1.59a1710fed8ebp-3, 0x1.38a74ca15f66fp-1, -0x1.6630dd9612205p-5, 0x1.2571c9869d9f3p-1, -0x1.7545dfb975184p-4,
+     0x1.a9b2b631b175bp-5, -0x1.b58496f0de98ep-5, 0x1.220b8f14b63c5p-3, -0x1.d7d91e6bd2cebp-4, 0x1.0f725b91f519ap-3, -0x1.87f338c8a80acp-2, -0x1.fa36d1e27048fp-3, -0x1.5e96c6e3a4925p-8},
+    {0x1.73d7079d3ef9ap-3, 0x1.880f7ce6530e6p-3, -0x1.5997661328d4ep-7, -0x1.0eb97c651afc7p-3, -0x1.1f34b4b9b64ebp-4, 0x1.54f24fa47baaep-2, -0x1.a3c51c3a360a4p-5, 0x1.0be0bef7353d7p-7,
+     -0x1.699c81baab35cp-3, -0x1.f6af6b9ef0584p-4, -0x1.aba99f423262bp-3, -0x1.a1f77bb793145p-2, -0x1.0eafc92efdf91p-4, 0x1.142ed5776081dp-2, 0x1.9c712adc74007p-3, -0x1.91387ab9e18f4p-3}};
+
+void
+sub_svd44_witness (Ctx& c, uint64_t idx)
+{
+    M44d A;
+    for (int i = 0; i < 4; ++i) for (int j = 0; j < 4; ++j) A[i][j] = sweep_limit_witness[idx % 3][4 * i + j];
+    judge_svd<double, 4> (c, idx, A, "coinciding_singular_value_pairs_literal", (idx / 3) & 1, false);
 }
 
 // =================================================================== symmetric matrices
@@ -390,6 +433,7 @@ MON_SUB_IDX (svd33f, "jacobiSVD33_float", 1280000, 24000000).req (GEN_REQ).over 
 MON_SUB_IDX (svd33d, "jacobiSVD33_double", 1280000, 24000000).req (GEN_REQ).over (SVD_SPACE);
 MON_SUB_IDX (svd44f, "jacobiSVD44_float", 960000, 18000000).req (GEN_REQ).over (SVD_SPACE);
 MON_SUB_IDX (svd44d, "jacobiSVD44_double", 960000, 18000000).req (GEN_REQ).over (SVD_SPACE);
+MON_SUB_IDX (sub_svd44_witness, "jacobiSVD44_double_sweep_limit", 6, 6).req ({"coinciding_singular_value_pairs_literal"}).exh ().noscale ().over ("3 literal Matrix44<double> with two pairs of coinciding singular values x forcePositiveDeterminant off/on (deterministic witnesses of the 20-sweep cap)");
 MON_SUB_IDX (eig33f, "jacobiEigenSolver33_float", 1120000, 21000000).req (SYM_REQ).over (SYM_SPACE);
 MON_SUB_IDX (eig33d, "jacobiEigenSolver33_double", 1120000, 21000000).req (SYM_REQ).over (SYM_SPACE);
 MON_SUB_IDX (eig44f, "jacobiEigenSolver44_float", 840000, 16800000).req (SYM_REQ).over (SYM_SPACE);
